@@ -45,7 +45,7 @@ class Check:
         self.seed = int(seed if seed is not None else os.environ.get("VERIF_SEED", "0") or 0)
         self.level = level
         self.t0 = time.time()
-        self.work = WORK / pid
+        self.work = WORK / ("%s_%d" % (pid, os.getpid()))     # per process: concurrent runs do not share scratch
         shutil.rmtree(self.work, ignore_errors=True)
         self.work.mkdir(parents=True, exist_ok=True)
         for old in REPLAYS.glob(pid + "-*.json"):
